@@ -8,8 +8,9 @@ import Driver.Engine
     reset <threads>                 fresh table, thread 0 = owner
     new <h> <blk>                   NewRow() answered block <blk>        -> ok fresh|reuse took=<k>
     pnew <h> <blk>                  same while disposer threads run      -> ok fresh|reuse
-    add <h> | extract <i> <keep> <h> | remove <i> <keep> | clear | takeall
+    add <h> | extract <i> <keep> <h> | remove <i> <keep> | clear | takeall | ptakeall
     move <h> <t>                    row object moved to thread t
+    swap <h1> <h2>                  DataRow::Swap of two detached row objects
     dispose <h>                     complete ~DataRow on the holder's thread
     dbegin|dload|dwrite|dcas <h>    ~DataRow in single steps (dcas answers ok|fail)
     give <h> <t>                    handed to a running disposer thread (destroyed at an unknown time)
@@ -100,6 +101,10 @@ def step (d : DSt) : List String → DSt × String
       match Momo.Rows.step d.s .takeBegin with
       | some s1 => let k := s1.L.length; ({ d with s := takeAllFrom s1 none }, s!"took={k}")
       | none => bad d "takeall"
+  | ["ptakeall"] =>
+      match Momo.Rows.step d.s .takeBegin with
+      | some s1 => ({ d with s := takeAllFrom s1 none }, "ok")
+      | none => bad d "ptakeall"
   | ["clear"] =>
       match Momo.Rows.step d.s .takeBegin with
       | some s1 =>
@@ -116,6 +121,21 @@ def step (d : DSt) : List String → DSt × String
           | none => bad d "move"
         | none => bad d "move: not detached"
       | none => bad d "move: unknown handle"
+  | ["swap", h1, h2] =>
+      -- DataRow::Swap of two detached row objects: each object stays with its thread and gets the other's block
+      match d.handles.lookup (nat! h1), d.handles.lookup (nat! h2) with
+      | some r1, some r2 =>
+          match holderOf d.s r1, holderOf d.s r2 with
+          | some t1, some t2 =>
+              match Momo.Rows.step d.s (.handoff r1 t1 t2) with
+              | some s1 => match Momo.Rows.step s1 (.handoff r2 t2 t1) with
+                | some s2 =>
+                    let hs := d.handles.map (fun p => if p.1 == nat! h1 then (p.1, r2) else if p.1 == nat! h2 then (p.1, r1) else p)
+                    ({ d with s := s2, handles := hs }, "ok")
+                | none => bad d "swap"
+              | none => bad d "swap"
+          | _, _ => bad d "swap: not detached"
+      | _, _ => bad d "swap: unknown handle"
   | ["give", h, t] =>
       match d.handles.lookup (nat! h) with
       | some r => match holderOf d.s r with
